@@ -354,8 +354,9 @@ def _ciq(case, ctx, g):
         im, iv, kl = _NgdInterpTerms.apply(t, nat_vec, nat_mat)
         Sm = torch.linalg.inv(P)
         m = (Sm @ nat_vec.detach().unsqueeze(-1)).squeeze(-1)
-        ctx.close("ciq_forward", im, (t.detach().transpose(-1, -2) @ m.unsqueeze(-1)).squeeze(-1), (1e-7, 1e-7))
-        ctx.close("ciq_forward", iv, (t.detach() * (Sm @ t.detach())).sum(-2), (1e-7, 1e-7))
+        # forward and backward both solve with linear_operator's CG (accuracy floor ~1e-5, the "iter" tier of DESIGN section 3)
+        ctx.close("ciq_forward", im, (t.detach().transpose(-1, -2) @ m.unsqueeze(-1)).squeeze(-1), (1e-4, 1e-4))
+        ctx.close("ciq_forward", iv, (t.detach() * (Sm @ t.detach())).sum(-2), (1e-4, 1e-4))
         dt, d1, d2 = torch.autograd.grad([im, iv, kl], [t, nat_vec, nat_mat], [up_m, up_v, up_k], retain_graph=True)
         et, e1, e2 = torch.autograd.grad([im, iv, kl], [t, nat_vec, nat_mat], [up_m, up_v, up_k])
         ctx.expect("backward_repeatable", all(bool(torch.allclose(a_, b_, rtol=1e-9, atol=1e-12)) for a_, b_ in ((dt, et), (d1, e1), (d2, e2))), "_NgdInterpTerms: a second backward through the same graph returned another gradient", function="ciq")
